@@ -227,6 +227,35 @@ func syncPart(t *testing.T, run *ev.Run) {
 			jobs = append(jobs, syncJob{sc.ID, func() { crashRun(t, run, sc, src, other) }})
 		}
 	}
+	// Directed scenario for the known finding about old oracle requests.
+	osrc, point := buildOracleSource(t, 2900, 4, 6)
+	defer osrc.h.P.Close()
+	switch {
+	case osrc.h.P.Rejected != nil:
+		run.Violation("producer-rejected-own-block", "oracle-source", osrc.h.P.Rejected.Error(), nil)
+	case point == 0:
+		run.Inconclusive("directed oracle scenario: no response to a request older than MaxTraceableBlocks could be produced")
+	default:
+		run.Obs("sync_oracle_scenario_built", 1)
+		for k, mode := range []string{"mpt", "storage"} {
+			sc := syncCase{ID: fmt.Sprintf("oracle/%s", mode), Src: osrc.idx, Mode: mode, Stream: uint64(2900000 + k), Remote: point, Backend: "mem", Flush: 30}
+			jobs = append(jobs, syncJob{sc.ID, func() {
+				run.BeginCase(sc.ID, sc)
+				st, _, err := newStore(sc)
+				if err != nil {
+					run.Inconclusive("%s: %v", sc.ID, err)
+					return
+				}
+				s := newSyncer(t, run, sc, osrc, nil, st)
+				out := s.open("fresh-node")
+				if out == nil {
+					out = s.drive("after-sync")
+				}
+				s.dispose()
+				s.finish("oracle-scenario", out)
+			}})
+		}
+	}
 	runSyncJobs(run, jobs)
 }
 
